@@ -1,26 +1,65 @@
 """C05 — optimisation options never change solvability or the optimal objective.
 
-Proof: FP/Props/C05.lean (abstract optimum-preservation lemma, row/bound equivalence of fixing, LP append semantics,
-search shortcuts) — see MODEL_SCOPE for what is and is not covered by theorems.
-Tie/oracle: metamorphic end-to-end runs: the same input under sampled subsets of every documented option flag must give
-the same solved status and the same objective as the all-off baseline (K5); K2 LP-dump equality of the encoders with
-option flags that do not touch the LP.
+Proof: FP/Props/C05.lean.
+ * generic: abstract optimum-preservation lemma, row/bound equivalence of fixing, LP append semantics, search shortcuts;
+ * the six safety flags of the cyclic (walk) models — a real theorem for kPathCoverCycles (feasibility AND minimum) and
+   kFlowDecompCycles without given weights (feasibility; the k-model has no objective), for every subset of the flags:
+   layer-permutation invariance of the LPs (T1), every solution can be re-indexed so that slot j contains the safe
+   sequence handed to it (T2, from C01 walkcore_sound, C04 nonScc_once, C06 T3/T5/T6), hence the rows / bound changes /
+   simplified product rows / appended subset constraints of `_apply_safety_optimizations` change nothing (T3, T4).
+Tie: K2 LP-dump equality of the Lean generators `kcovercLPS` / `kfdcLPS` with the REAL constructors built with random
+subsets of the safety flags ON (adapters kcoverc_safety, kfdc_safety; SCC numbering, antichain and the iteration order
+of the trusted set are captured from the real run), plus the option-free encoders.
+Oracle: metamorphic end-to-end runs (K5): the same input under sampled subsets of every documented option flag of every
+class must give the same solved status and the same objective as the all-off baseline.
 """
 import json, random, itertools
 from fpv import models, k2, gen
 from fpv.common import frac
 
 THEOREMS = ["FP.Props.C05.opt_preserved", "FP.Props.C05.sat_append", "FP.Props.C05.lowerBound_row_equiv",
-            "FP.Props.C05.fix_row_equiv", "FP.Props.C05.shortcut_preserves_search"]
+            "FP.Props.C05.fix_row_equiv", "FP.Props.C05.shortcut_preserves_search",
+            # T1
+            "FP.Props.C05.layer_perm_invariant", "FP.Props.C05.layer_perm_invariant_kcoverc",
+            "FP.Props.C05.layer_perm_invariant_kfdc",
+            # T2
+            "FP.Props.C05.safety_rows_satisfiable_after_perm", "FP.Props.C05.zero_fix_keys_sound",
+            # T3
+            "FP.Props.C05.safety_options_preserve_optimum", "FP.Props.C05.bounds_variant_equiv",
+            "FP.Props.C05.sat_walkCoreS",
+            # T4
+            "FP.Props.C05.subset_variants_extend", "FP.Props.C05.subset_variants_drop",
+            # the two classes, every subset of the flags; with the computed fragment
+            "FP.Props.C05.kcoverc_safety_options_preserve_optimum",
+            "FP.Props.C05.kcoverc_safety_pipeline_preserves_optimum",
+            "FP.Props.C05.kfdc_safety_options_preserve_feasibility",
+            "FP.Props.C05.kfdc_safety_pipeline_preserves_feasibility",
+            "FP.Props.C05.pipeline_data_sound",
+            # non-vacuity (README graph)
+            "FP.Props.C05.readme_maxSafeSeqs", "FP.Props.C05.readme_data"]
 IMPORTS = ["FP.Props.C05"]
 K2_ADAPTERS = ["kfd", "kcover", "kfdc"]
+K2_SAFETY_ADAPTERS = ["kcoverc_safety", "kfdc_safety"]
 RULE = ("for every class that accepts optimization_options: random inputs; the all-flags-off run is the reference; quick tier "
         "samples single flags plus random subsets, thorough tier more inputs and the full cross product on small inputs. A case "
         "= (class, input, flag set); non-trivial iff the flag set is non-empty and the model is constructible with it.")
-MODEL_SCOPE = ("theorems: abstract optimum preservation under added constraints, LP append semantics, equivalence of fixing through "
-               "bounds and through rows (given C12's exact batch update), search shortcuts (greedy / given weights accepted only at "
-               "the k under test). NOT yet proven: that the concrete safe sequences satisfy the hypothesis of opt_preserved "
-               "(needs C06's safety and incompatibility theorems) — covered by the metamorphic oracle only.")
+MODEL_SCOPE = ("PROVEN (Lean, full): abstract optimum preservation under added constraints, LP append semantics, equivalence of "
+               "fixing through bounds and through rows, search shortcuts (greedy / given weights accepted only at the k under "
+               "test). For the cyclic models' six safety flags (optimize_with_safe_sequences, ..._allow_geq_constraints, "
+               "..._fix_via_bounds, ..._fix_zero_edges, optimize_with_safety_as_subset_constraints, "
+               "optimize_with_max_safe_antichain_as_subset_constraints), every subset: kPathCoverCycles — the LP with the options "
+               "(model kcovercLPS = the real LP by K2) is feasible iff the LP without them is and both have the same minimum; "
+               "kFlowDecompCycles without given_weights — feasibility equivalence including the simplified product rows for "
+               "edges_set_to_zero/one; a generic version for any layer-symmetric model/objective on _encode_walks (applies to "
+               "the error models' row variants). Hypotheses of these theorems: well-formed input graph, subset constraints made "
+               "of graph edges with coverage <= 1, distinct product-block names (kfdc), w_max > 0 when some edge carries flow "
+               "(kfdc), and for the fragment computed by the code the two hypotheses of C06's incompatible_sound_partial "
+               "(the captured antichain is an antichain; no shared parallel inter-SCC edge) — C06 T6 in full is still a "
+               "statement (incompatible_sound_FullStatement). ORACLE-ONLY (metamorphic runs): the DAG models' options (safe "
+               "paths / sequences, zero edges, subpath-constraint variants, largest antichain), flow-safe paths, greedy, "
+               "min-generating-set and subgraph-scanning lower bounds, guessed weights, kFlowDecompCycles with given_weights "
+               "(rows weights_i = w_i are not layer-symmetric; only used as a heuristic upper bound by MinFlowDecompCycles), "
+               "kLeastAbsErrorsCycles / kMinPathErrorCycles instances, node-weighted modes.")
 TRUSTED = ["HiGHS proves optimality/infeasibility correctly on the small instances used by the metamorphic oracle"]
 ASSUMPTIONS = ["documented option conflicts raise ValueError and are skipped"]
 
@@ -201,7 +240,8 @@ def gen_inst(rng, cls):
 
 def run(ctx):
     rng = ctx.rng
-    k2.run_k2(ctx, K2_ADAPTERS, ctx.n(30, 400))
+    k2.run_k2(ctx, K2_ADAPTERS, ctx.n(20, 300))
+    k2.run_k2(ctx, K2_SAFETY_ADAPTERS, ctx.n(100, 450))
     per = ctx.n(4, 16)
     first = True
     for cls in models.ALL_CLASSES:
